@@ -149,6 +149,25 @@ let run_nth n start bias =
   | NOk p -> "ok " ^ pr p
   | NThrow -> "err"
 
+(* STOREP maxV start stop pre / STOREN maxV n start pre: the blocks of the iterator are supplied by the
+   kernel oracle (all primes from start up to a bound safely beyond what the call can consume, or up to 2^64-1) *)
+let primes_from start bound maxcount =
+  let acc = ref [] and x = ref start and c = ref 0 in
+  while Zr.leq !x bound && !c < maxcount do (if mr !x then (acc := !x :: !acc; incr c)); x := Zr.succ !x done;
+  List.rev !acc
+let show_sres = function
+  | SOk v -> "ok" ^ String.concat "" (List.map (fun x -> " " ^ pr x) v)
+  | SThrow v -> "err" ^ String.concat "" (List.map (fun x -> " " ^ pr x) v)
+  | SCrash -> "crash"
+let prefill n = List.init n (fun i -> Zr.of_int (i + 1))
+let run_storep maxv start stop pre =
+  let bound = Zr.min mAX64 (Zr.add (Zr.max start stop) (Zr.of_int 3000)) in
+  let blocks = chunks (nat_of_int 6) (primes_from start bound max_int) in
+  show_sres (store_primes maxv start stop blocks (prefill pre))
+let run_storen maxv n start pre =
+  let blocks = chunks (nat_of_int 6) (primes_from start mAX64 (n + 40)) in
+  show_sres (store_n_primes maxv (nat_of_int n) blocks (prefill pre))
+
 let read_block () =
   let rec go acc = match input_line stdin with
     | "END" -> List.rev acc
@@ -163,6 +182,8 @@ let () =
       match String.split_on_char ' ' line with
       | "ITER" :: args -> let ls = read_block () in run_iter args ls; print_endline "END"
       | "CALC" :: _ -> print_endline (run_calc line)
+      | ["STOREP"; mv; a; b; pre] -> print_endline (run_storep (z mv) (z a) (z b) (int_of_string pre))
+      | ["STOREN"; mv; n; a; pre] -> print_endline (run_storen (z mv) (int_of_string n) (z a) (int_of_string pre))
       | ["NTH"; n; st; bias] -> print_endline (run_nth (z n) (z st) (int_of_string bias))
       | "LEAF" :: toks -> print_endline (run_leaf toks)
       | ["PLAN"; a; b; nt; md] ->
